@@ -257,6 +257,22 @@ def split_file(path, n, outdir, prefix):
     return outs, len(lines)
 
 
+def apalache_check(module, init, inv, length, timeout=900):
+    """apalache-mc check (symbolic, unbounded integers): returns dict(ok, wall, out).  Used for inductive-invariant obligations."""
+    od = os.path.join(BUILD, "apalache", "%s_%s_%d" % (slug(module), slug(init), os.getpid()))
+    shutil.rmtree(od, ignore_errors=True)
+    os.makedirs(od, exist_ok=True)
+    t0 = time.time()
+    try:
+        r = sh(["apalache-mc", "check", "--init=" + init, "--inv=" + inv, "--length=%d" % length, "--out-dir=" + od, module],
+               cwd=os.path.join(SPEC, "apalache"), timeout=timeout)
+        out, rc = r.stdout, r.returncode
+    except subprocess.TimeoutExpired:
+        out, rc = "TIMEOUT", 124
+    shutil.rmtree(od, ignore_errors=True)
+    return dict(ok=(rc == 0 and "The outcome is: NoError" in out), wall=time.time() - t0, out=out[-2000:], rc=rc)
+
+
 def tlc_validate(module, traces, cfg=None, timeout=1500, xmx="3g", env_extra=None):
     """Validate trace files (ndjson) against a trace specification, one TLC process per file, in parallel.
     Returns (rejects, stats, errors). A TLC process that fails for another reason than a rejection is an
